@@ -163,6 +163,18 @@ theorem parse_print (tbl : Table) (hT : tbl.WellFormed) (e : Expr) (he : e.Over 
   rw [sy_correct tbl hT e he.toW ts hp]
   exact parsePostfix_postfix tbl e he
 
+/-- **From characters to the tree.**  For every expression tree `e`, every way `ts` to write it as tokens (minimal,
+    redundant or full parentheses: `Prints e ts`) and every way to lay these tokens out as characters (`ws`: any
+    blanks, none needed next to symbolic operators / parentheses / commas, `Valid`), `Function.parse` of the text is
+    `e`: `format_infix` + `split` recover the tokens (`format_split_render`), the shunting-yard loop and the stack
+    machine rebuild the tree (`parse_print`).  No bound on the size of the tree or of the text. -/
+theorem parse_any_layout (tbl : Table) (hT : tbl.WellFormed) (e : Expr) (he : e.Over tbl) (ts : List Tok)
+    (hp : Prints e ts) (ws : List (Nat × Tk)) (tr : Nat) (hts : ws.map (fun p => p.2.str) = ts.map Tok.str)
+    (hsp : NoSpaceOp (opsOf tbl)) (hv : Valid (opsOf tbl) ws tr) :
+    parseFormula tbl (formatInfix tbl (String.ofList (render ws tr))) = .ok e := by
+  rw [format_split_render tbl ws tr hsp hv, hts]
+  exact parse_print tbl hT e he ts hp
+
 /-- **Postfix round trip.**  The tree of a loaded formula prints to a postfix form from which the stack machine
     rebuilds the same tree, and – for any meaning of leaves and elements – the value of the tree is the value of that
     postfix form as a reverse-Polish program. -/
